@@ -2,6 +2,7 @@
   C03 — Decoding any well-typed wire stream gives the reference result.
 -/
 import Pulsar.Proofs.DecodeRef
+import Pulsar.Proofs.DecodeConcat
 namespace Pulsar
 
 /-- strict acceptance implies plain acceptance with the same value (WellTyped streams are in the
@@ -27,6 +28,57 @@ theorem C03_decode_eq_reference_fresh (S : Schema) (o : UOpts) (i : Nat) (bs : B
     (h : specUnmarshalStrict S o i (emptyMsg S i) bs = .ok v) :
     implUnmarshal S o i (emptyMsg S i) bs = .ok v :=
   unmarshal_agree S o i _ bs v hl (fun _ => rfl) (Or.inl ho) h
+
+/-! ### decoding a concatenation equals merging -/
+
+/-- Reference decoder: if `a` decodes (into `m0`, or fresh) to `v1` and `b` decodes with Merge into `v1`
+    to `v2`, then `a ++ b` decodes to `v2` — for every schema and all byte strings, no side condition. -/
+theorem C03_concat_reference (S : Schema) (o : UOpts) (i : Nat) (m0 v1 v2 : Val) (a b : Bytes)
+    (ha : specUnmarshal S o i m0 a = .ok v1)
+    (hb : specUnmarshal S { o with merge := true } i v1 b = .ok v2) :
+    specUnmarshal S o i m0 (a ++ b) = .ok v2 := by
+  unfold specUnmarshal at *
+  simp only [if_true] at hb
+  exact specDecodeInto_concat false S o { o with merge := true } rfl _ _ _ _ _ _ _ ha hb
+
+/-- Well-typed streams are closed under concatenation (same statement for the strict decoder that
+    defines `WellTyped`). -/
+theorem C03_concat_strict (S : Schema) (o : UOpts) (i : Nat) (m0 v1 v2 : Val) (a b : Bytes)
+    (ha : specUnmarshalStrict S o i m0 a = .ok v1)
+    (hb : specUnmarshalStrict S { o with merge := true } i v1 b = .ok v2) :
+    specUnmarshalStrict S o i m0 (a ++ b) = .ok v2 := by
+  unfold specUnmarshalStrict at *
+  simp only [if_true] at hb
+  exact specDecodeInto_concat true S o { o with merge := true } rfl _ _ _ _ _ _ _ ha hb
+
+/-- The generated decoder: decoding the concatenation of two well-typed streams gives exactly the
+    value the reference gives for "decode `a`, then merge-decode `b` into the result". -/
+theorem C03_concat_eq_merge (S : Schema) (hS : S.WF = true) (o : UOpts) (i : Nat) (m0 v1 v2 : Val) (a b : Bytes)
+    (hi : i < S.msgs.length) (hl : (a ++ b).length < 9223372036854775808)
+    (hm : o.merge = false ∨ msgOK S false (m0.depth + 1) i m0 = true)
+    (hnn : o.merge = false → m0.isNone = false)
+    (ha : specUnmarshalStrict S o i m0 a = .ok v1)
+    (hb : specUnmarshalStrict S { o with merge := true } i v1 b = .ok v2) :
+    implUnmarshal S o i m0 (a ++ b) = .ok v2 :=
+  C03_decode_eq_reference S hS o i m0 (a ++ b) v2 hi hl hm hnn (C03_concat_strict S o i m0 v1 v2 a b ha hb)
+
+/-- … and it is the value the generated decoder itself computes in two steps (decode `a`, then decode
+    `b` with Merge into the result), provided the intermediate value is a well-formed message. -/
+theorem C03_concat_eq_two_steps (S : Schema) (hS : S.WF = true) (o : UOpts) (i : Nat) (m0 v1 v2 : Val) (a b : Bytes)
+    (hi : i < S.msgs.length) (hl : (a ++ b).length < 9223372036854775808)
+    (hm : o.merge = false ∨ msgOK S false (m0.depth + 1) i m0 = true)
+    (hnn : o.merge = false → m0.isNone = false)
+    (hv1 : msgOK S false (v1.depth + 1) i v1 = true)
+    (ha : specUnmarshalStrict S o i m0 a = .ok v1)
+    (hb : specUnmarshalStrict S { o with merge := true } i v1 b = .ok v2) :
+    implUnmarshal S o i m0 a = .ok v1 ∧
+    implUnmarshal S { o with merge := true } i v1 b = .ok v2 ∧
+    implUnmarshal S o i m0 (a ++ b) = .ok v2 := by
+  have hla : a.length < 9223372036854775808 := by simp only [List.length_append] at hl; omega
+  have hlb : b.length < 9223372036854775808 := by simp only [List.length_append] at hl; omega
+  refine ⟨C03_decode_eq_reference S hS o i m0 a v1 hi hla hm hnn ha,
+    C03_decode_eq_reference S hS _ i v1 b v2 hi hlb (Or.inr hv1) (fun h => by simp at h) hb,
+    C03_concat_eq_merge S hS o i m0 v1 v2 a b hi hl hm hnn ha hb⟩
 
 /-! ### non-vacuity -/
 
@@ -85,8 +137,22 @@ example : specUnmarshal c03Schema {} 1 (emptyMsg c03Schema 1) [0x0d, 0, 0, 0, 0]
     consumeVarintAux, c03Schema, emptyMsg, Schema.msg, findField, FieldDesc.zero, Kind.specWireType,
     Kind.isBlob, Val.slots, Val.unknown]
 
+/-- concatenation: `c03Bytes = f{a:7} ++ f{b:9}`; the two halves decode separately and merge. -/
+example : specUnmarshalStrict c03Schema {} 0 (emptyMsg c03Schema 0) [0x0a, 0x02, 0x08, 0x07]
+    = .ok (.msg [.msg [.bits 7, .bits 0] []] []) := by rfl
+example : specUnmarshalStrict c03Schema { merge := true } 0 (.msg [.msg [.bits 7, .bits 0] []] []) [0x0a, 0x02, 0x10, 0x09]
+    = .ok (.msg [.msg [.bits 7, .bits 9] []] []) := by rfl
+example : implUnmarshal c03Schema {} 0 (emptyMsg c03Schema 0) ([0x0a, 0x02, 0x08, 0x07] ++ [0x0a, 0x02, 0x10, 0x09])
+    = .ok (.msg [.msg [.bits 7, .bits 9] []] []) :=
+  C03_concat_eq_merge c03Schema (by decide) {} 0 _ _ _ _ _ (by decide) (by decide) (Or.inl rfl) (fun _ => rfl)
+    (by rfl) (by rfl)
+
 end Pulsar
 
 #print axioms Pulsar.C03_strict_implies_reference
 #print axioms Pulsar.C03_decode_eq_reference
 #print axioms Pulsar.C03_decode_eq_reference_fresh
+#print axioms Pulsar.C03_concat_reference
+#print axioms Pulsar.C03_concat_strict
+#print axioms Pulsar.C03_concat_eq_merge
+#print axioms Pulsar.C03_concat_eq_two_steps
